@@ -66,13 +66,51 @@ Theorem first_error_wins : forall r c, r_code r <> 0 -> attach r c = r.
 Proof. exact attach_keeps_error. Qed.
 Print Assumptions first_error_wins.
 
+(* ---- cancellation of the caller's context ---------------------------------------- *)
+
+(* The oracle covers cancellation: a FindMissing / Put entered with a done
+   context fails (any code), and a missing blob of a batch may simply not be
+   handed to the CAS (AcquireSemaphore refuses on a done context).  The
+   theorems above hold for all oracles, hence under every cancellation
+   point.  Explicitly: *)
+
+(* a batch one of whose missing blobs was not handed to the CAS leaves an
+   error behind (returned by the Put that triggered the flush, or by the
+   flusher) ... *)
+Theorem unissued_put_reported : forall b cas o b' cas' used,
+  flush_locked b cas o = (b', cas', used) ->
+  (exists d, In d (expected b cas) /\ was_put (eff (expected b cas) o) d = false) ->
+  b_ferr b' <> 0.
+Proof. exact unissued_put_reported_l. Qed.
+Print Assumptions unissued_put_reported.
+
+(* ... which is the FindMissing error, the code of a failed Put of the batch,
+   or the done context's code when a Put was not issued (or the error of an
+   earlier batch that is still pending) ... *)
+Theorem flush_error_source : forall ferr exp o,
+  let e := flush_error ferr exp o in
+  e = ferr \/ (o_fm o <> 0 /\ e = o_fm o) \/
+  failed_code (eff exp o) e = true \/
+  (forallb (was_put (eff exp o)) exp = false /\ ctx_code e = true).
+Proof. exact flush_error_source. Qed.
+Print Assumptions flush_error_source.
+
+(* ... and an action one of whose acknowledged uploads did not reach the CAS
+   reports an error, advertises no digests and is not cached. *)
+Theorem lost_ack_not_cached : forall batch b cas a ao b2 cas2 o fits,
+  run_action batch b cas a ao = (b2, cas2, o, fits) ->
+  (exists d, In d (acked (a_blobs a) (oa_puts o)) /\ memN d (oa_cas o) = false) ->
+  r_code (oa_resp o) <> 0 /\ oa_ac o = None /\ advertises_nothing (oa_resp o) = true.
+Proof. exact lost_ack_not_cached_l. Qed.
+Print Assumptions lost_ack_not_cached.
+
 (* ---- non-vacuity --------------------------------------------------------------- *)
 
 (* A cacheable action whose three uploads (one duplicate) all succeed with a
    batch size of 1 reaches the AC with its references in the CAS ... *)
 Example reaches_ac :
   let a := mkAction [mkBlob 1 RFile; mkBlob 2 RStdout; mkBlob 1 RTree] 0 0 false in
-  let ao := mkAO [None; Some (mkO 0 [(1, 0)]); Some (mkO 0 [(2, 0)])] (mkO 0 []) 0 in
+  let ao := mkAO [None; Some (mkO 0 [(1, 0)] 0); Some (mkO 0 [(2, 0)] 0)] (mkO 0 [] 0) 0 in
   let '(_, _, o, fits) := run_action 1 binit [] a ao in
   fits = true /\ oa_ac o = Some [1; 1; 2] /\ oa_cas o = [1; 2] /\ r_msg (oa_resp o) = 1.
 Proof. vm_compute. repeat split; reflexivity. Qed.
@@ -81,7 +119,30 @@ Proof. vm_compute. repeat split; reflexivity. Qed.
    reported, pruned and not cached. *)
 Example failure_is_pruned :
   let a := mkAction [mkBlob 1 RFile; mkBlob 2 RStdout; mkBlob 3 RTree] 0 0 false in
-  let ao := mkAO [None; Some (mkO 0 [(1, 0)]); Some (mkO 0 [(2, 0)])] (mkO 0 [(3, 13)]) 0 in
+  let ao := mkAO [None; Some (mkO 0 [(1, 0)] 0); Some (mkO 0 [(2, 0)] 0)] (mkO 0 [(3, 13)] 13) 0 in
   let '(_, _, o, fits) := run_action 1 binit [] a ao in
   fits = true /\ upload_failed o = true /\ oa_ac o = None /\ r_code (oa_resp o) = 13 /\ r_msg (oa_resp o) = 2.
+Proof. vm_compute. repeat split; reflexivity. Qed.
+
+(* The context is cancelled while the FindMissing of the final flush is in
+   progress (FindMissing still succeeds): no Put is issued, the flush reports
+   CANCELLED, the response is pruned and nothing is cached -- although every
+   upload was acknowledged.  (Recorded from the implementation: corpus/C09.) *)
+Example cancelled_flush_is_reported :
+  let a := mkAction [mkBlob 1 RFile; mkBlob 2 RStdout] 0 0 false in
+  let ao := mkAO [None; None] (mkO 0 [] 1) 1 in
+  let '(_, _, o, fits) := run_action 5 binit [] a ao in
+  fits = true /\ acked (a_blobs a) (oa_puts o) = [1; 2] /\ oa_cas o = [] /\
+  oc_ret (oa_flush o) = 1 /\ r_code (oa_resp o) = 1 /\ oa_ac o = None /\
+  advertises_nothing (oa_resp o) = true.
+Proof. vm_compute. repeat split; reflexivity. Qed.
+
+(* A Put fails with INTERNAL while the caller cancels: the errgroup may
+   report either error; both are explained by the model, nothing else is. *)
+Example errgroup_pick :
+  let b := mkB [(1, 0%nat); (2, 1%nat)] 0 in
+  puts_possible (expected b []) (mkO 0 [(1, 13)] 13) = true /\
+  puts_possible (expected b []) (mkO 0 [(1, 13)] 1) = true /\
+  puts_possible (expected b []) (mkO 0 [(1, 13)] 14) = false /\
+  puts_possible (expected b []) (mkO 0 [(1, 13)] 0) = false.
 Proof. vm_compute. repeat split; reflexivity. Qed.
